@@ -142,6 +142,8 @@ ZOO: dict[str, dict] = {
             "doc": {"content": "block+"},
             "paragraph": {"content": "inline*", "group": "block"},
             "figure": {"content": "inline*", "group": "block", "atom": True, "attrs": {"kind": {"default": "fig"}}},
+            # inline content that is sensitive to ORDER (an optional image may only come first)
+            "lead": {"content": "image? text*", "group": "block"},
             "blockquote": {"content": "block+", "group": "block"},
             "chip": {"content": "text*", "inline": True, "group": "inline", "attrs": {"id": {"default": None}}},
             "image": {"inline": True, "group": "inline", "attrs": {"src": {}, "alt": {"default": None}, "title": {"default": None}}},
@@ -490,6 +492,46 @@ def random_schema(R: Draw, tries: int = 6) -> dict | None:
         if not default_choice_terminates(lib, rs):
             continue
         return spec
+    return None
+
+
+def twin_spec(R: Draw, spec: dict) -> dict | None:
+    """A second schema with the SAME node and mark names in the same order whose groups differ (one node leaves a
+    group, or joins one): identical content-expression texts then denote different sets of node types.  Used to build
+    two schemas in one process - what an expression means belongs to the schema, not to its text."""
+    from prosemirror.model import Schema
+
+    nodes = spec["nodes"]
+    groups = sorted({gname for sp in nodes.values() for gname in (sp.get("group") or "").split() if gname})
+    if not groups:
+        return None
+    for _ in range(6):
+        twin = {"nodes": {k: dict(v) for k, v in nodes.items()}, "marks": copy.deepcopy(spec.get("marks") or {})}
+        name = R.choice([n for n in nodes if n != "text"])
+        toks = (twin["nodes"][name].get("group") or "").split()
+        if toks and R.bool(0.6):
+            toks.remove(R.choice(toks))
+        else:
+            gname = R.choice(groups)
+            if gname in toks:
+                continue
+            toks.append(gname)
+        if toks:
+            twin["nodes"][name]["group"] = " ".join(toks)
+        else:
+            twin["nodes"][name].pop("group", None)
+        try:
+            rs = RefSchema(copy.deepcopy(twin))
+        except SpecError:
+            continue
+        if not well_founded(rs):
+            continue
+        try:
+            lib = Schema(copy.deepcopy(twin))
+        except Exception:  # noqa: BLE001, S112
+            continue
+        if default_choice_terminates(lib, rs):
+            return twin
     return None
 
 
